@@ -213,7 +213,8 @@ theorem desStepRelO (wk : Option Int) (W : Int → Int → Int → Prop) : StepR
     refine ⟨fun j c vt => Or.inl ?_, ?_⟩
     · exact desiredAt_setNode_same g k n { n with reboot := true } hn (fun _ _ => rfl) j c vt
     · exact queue_setNode g k n { n with reboot := true } hn (Or.inl ⟨[], by simp⟩)
-  setOta g o := ⟨fun _ _ _ => Or.inl rfl, fun k n hn => ⟨n, hn, Or.inl ⟨[], by simp⟩⟩⟩
+  setStores g o _ := ⟨fun _ _ _ => Or.inl rfl, fun k n hn => ⟨n, hn, Or.inl ⟨[], by simp⟩⟩⟩
+  storeFw g _ _ _ _ _ _ := ⟨fun _ _ _ => Or.inl rfl, fun k n hn => ⟨n, hn, Or.inl ⟨[], by simp⟩⟩⟩
   setCanLog g := ⟨fun _ _ _ => Or.inl rfl, fun k n hn => ⟨n, hn, Or.inl ⟨[], by simp⟩⟩⟩
 
 theorem desStep_storeDesired (wk : Option Int) (W : Int → Int → Int → Prop) (g : GW) (node child : Int)
